@@ -246,8 +246,8 @@ def gen_specs(ctx, n_random, n_scen):
         sp["features"]["status_iteration_options"] = True
         specs.append(sp)
         k += 1
-    for v in range(2, 6):  # the remaining cut-set variants (the loop above gives variants 0 and 1)
-        if n_scen >= 2 * len(G.SCENARIOS):
+    for v in range(6):  # every cut-set variant on every run (DD: 0, 2, 4, 5; PDD: 1, 3)
+        if n_scen >= len(G.SCENARIOS):
             specs.append(G.scenario_network(rng, "cutset", variant=v))
     for i in range(n_random):
         force = {}
